@@ -230,21 +230,41 @@ pub(crate) mod verif_t {
         core::mem::forget(t);
     }
 
-    /// one cached key and one stored row (same key or not): cache wins, both are merged
+    /// one cached key over a stored row with the SAME key: the cache wins (also when it deletes)
+    #[kani::proof]
+    fn t2_range_cached_over_stored() {
+        let mut t = T::verif_model();
+        let k1: u8 = kani::any();
+        let v1: Option<u8> = kani::any();
+        let vd: u8 = kani::any();
+        t.db.verif_plant_last(&[k1], &[vd]);
+        t.verif_put_cache(k1, single(v1));
+        range_check(&t, [k1, 0, 0], [v1, None, None], 1);
+        core::mem::forget(t);
+    }
+    /// one cached key and one stored row with different keys: both are merged
     #[kani::proof]
     fn t2_range_cached_and_stored() {
         let mut t = T::verif_model();
         let k1: u8 = kani::any();
         let kd: u8 = kani::any();
+        kani::assume(k1 != kd);
         let v1: Option<u8> = kani::any();
         let vd: u8 = kani::any();
-        t.db.verif_plant(&[kd], &[vd]);
+        t.db.verif_plant_last(&[kd], &[vd]);
         t.verif_put_cache(k1, single(v1));
-        if k1 == kd {
-            range_check(&t, [k1, 0, 0], [v1, None, None], 1);
-        } else {
-            range_check(&t, [k1, kd, 0], [v1, Some(vd), None], 2);
-        }
+        range_check(&t, [k1, kd, 0], [v1, Some(vd), None], 2);
+        core::mem::forget(t);
+    }
+
+    /// one stored row, nothing cached: the boundaries of the committed scan
+    #[kani::proof]
+    fn t2_range_one_stored() {
+        let t = T::verif_model();
+        let k1: u8 = kani::any();
+        let v1: u8 = kani::any();
+        t.db.verif_plant_last(&[k1], &[v1]);
+        range_check(&t, [k1, 0, 0], [Some(v1), None, None], 1);
         core::mem::forget(t);
     }
 
@@ -254,11 +274,11 @@ pub(crate) mod verif_t {
         let t = T::verif_model();
         let k1: u8 = kani::any();
         let k2: u8 = kani::any();
-        kani::assume(k1 != k2);
+        kani::assume(k1 < k2); // rows of a store are ascending by construction
         let v1: u8 = kani::any();
         let v2: u8 = kani::any();
-        t.db.verif_plant(&[k1], &[v1]);
-        t.db.verif_plant(&[k2], &[v2]);
+        t.db.verif_plant_last(&[k1], &[v1]);
+        t.db.verif_plant_last(&[k2], &[v2]);
         range_check(&t, [k1, k2, 0], [Some(v1), Some(v2), None], 2);
         core::mem::forget(t);
     }
